@@ -280,6 +280,13 @@ func (ps *PartSet) AddPart(part *Part) (bool, error) {
 		return false, nil
 	}
 
+	// The proof must be for this position in a tree with exactly the header's
+	// number of leaves: the root alone does not commit to the leaf count, and
+	// Proof.Verify does not look at part.Index.
+	if part.Proof.Index != int64(part.Index) || part.Proof.Total != int64(ps.total) {
+		return false, ErrPartSetInvalidProof
+	}
+
 	// Check hash proof
 	if part.Proof.Verify(ps.Hash(), part.Bytes) != nil {
 		return false, ErrPartSetInvalidProof
